@@ -112,7 +112,17 @@ func C05(r *h.Run) {
 		final := 0
 		if rng.Intn(3) == 0 {
 			code := connect.Code(1 + rng.Intn(16))
-			retErr = mkError(code, errMessages[rng.Intn(len(errMessages)-1)], rng.Intn(3), http.Header{"X-Err": {"e"}})
+			emeta := http.Header{"X-Err": {"e"}}
+			if rng.Intn(3) == 0 {
+				// a gateway returning the error of an upstream gRPC call: its metadata holds the
+				// upstream's own status trailers
+				emeta["Grpc-Status"] = []string{fmt.Sprint(1 + rng.Intn(16))}
+				emeta["Grpc-Message"] = []string{"upstream said no"}
+				if rng.Bool() {
+					emeta["Grpc-Status-Details-Bin"] = []string{"CAUSBXN0YWxl"}
+				}
+			}
+			retErr = mkError(code, errMessages[rng.Intn(len(errMessages)-1)], rng.Intn(3), emeta)
 			final = int(code)
 			if unary {
 				msgs = nil
